@@ -600,6 +600,101 @@ impl Space for Addresses {
 }
 
 // ---------------------------------------------------------------------------------------------
+/// Objects that are parsed into TWICE: what the first text left behind (lock flags, an end corner, a sheet name) must
+/// not show through after the second one. Differential oracle: the same second text parsed into a fresh object.
+const REUSE_COORDS: [&str; 12] = ["A1", "$A1", "A$1", "$A$1", "B2", "$C$7", "AA10", "$XFD$1048576", "XFD1048576", "Z$9", "$Z9", "AB12"];
+const REUSE_RANGES: [&str; 12] = ["A1", "$A$1", "A1:B2", "$A$1:$B$2", "A$1:$B2", "C3:D4", "A:B", "$A:$B", "1:2", "$1:$2", "XFD1048576", "B2:B2"];
+const REUSE_ADDRESSES: [&str; 8] = ["A1", "Sheet1!A1", "'My Sheet'!$A$1:$B$2", "Sheet1!A:B", "'It''s'!C3", "B2:C3", "Other!$D$4", "'a!b'!A1"];
+struct Reuse;
+impl Space for Reuse {
+    fn len(&self) -> u64 {
+        (REUSE_COORDS.len() * REUSE_COORDS.len() + REUSE_RANGES.len() * REUSE_RANGES.len() + REUSE_ADDRESSES.len() * REUSE_ADDRESSES.len()) as u64
+    }
+    fn describe(&self, i: u64) -> Value {
+        let (kind, a, b) = Self::locate(i);
+        json!({"kind": "object-parsed-into-twice", "object": kind, "first": a, "second": b})
+    }
+    fn tags(&self, i: u64) -> Vec<String> {
+        vec![format!("reuse:{}", Self::locate(i).0)]
+    }
+    fn run(&self, i: u64, sink: &mut Sink) {
+        let (kind, a, b) = Self::locate(i);
+        let tag = format!("reuse:{}", kind);
+        let tags = [tag.as_str()];
+        let case = self.describe(i);
+        sink.evaluations += 1;
+        let r = guarded(move || match kind {
+            "Coordinate" => {
+                let show = |c: &Coordinate| format!("{} col={} row={} lock=({},{})", c.to_string(), c.get_col_num(), c.get_row_num(), c.get_is_lock_col(), c.get_is_lock_row());
+                let mut x = Coordinate::default();
+                x.set_coordinate(a);
+                x.set_coordinate(b);
+                let mut f = Coordinate::default();
+                f.set_coordinate(b);
+                (show(&x), show(&f))
+            }
+            "Range" => {
+                let show = |r: &Range| {
+                    format!(
+                        "{} {:?} {:?} {:?} {:?}",
+                        r.get_range(),
+                        r.get_coordinate_start_col().map(|c| (*c.get_num(), *c.get_is_lock())),
+                        r.get_coordinate_start_row().map(|c| (*c.get_num(), *c.get_is_lock())),
+                        r.get_coordinate_end_col().map(|c| (*c.get_num(), *c.get_is_lock())),
+                        r.get_coordinate_end_row().map(|c| (*c.get_num(), *c.get_is_lock()))
+                    )
+                };
+                let mut x = Range::default();
+                x.set_range(a);
+                x.set_range(b);
+                let mut f = Range::default();
+                f.set_range(b);
+                (show(&x), show(&f))
+            }
+            _ => {
+                // Address: a text without a sheet part keeps the sheet the object already has (that is how the API
+                // scopes an unqualified address), so the differential twin gets the first text's sheet name as well
+                let show = |x: &Address| format!("{} sheet={:?} range={}", x.get_address(), x.get_sheet_name(), x.get_range().get_range());
+                let mut x = Address::default();
+                x.set_address(a);
+                let kept = x.get_sheet_name().to_string();
+                x.set_address(b);
+                let mut f = Address::default();
+                if !b.contains('!') {
+                    f.set_sheet_name(kept);
+                }
+                f.set_address(b);
+                (show(&x), show(&f))
+            }
+        });
+        match r {
+            Err(m) => sink.violations.push(Violation::new("object-reuse", &format!("panic:{}", panic_class(&m)), &tags, case, m)),
+            Ok((reused, fresh)) => {
+                sink.obs(&reused);
+                if reused != fresh {
+                    sink.violations.push(Violation::new("object-reuse", "first-parse-shows-through", &tags, case, format!("{} parsed {:?} then {:?}: {} - a fresh object given {:?}: {}", kind, a, b, reused, b, fresh)));
+                }
+            }
+        }
+    }
+}
+impl Reuse {
+    fn locate(i: u64) -> (&'static str, &'static str, &'static str) {
+        let nc = (REUSE_COORDS.len() * REUSE_COORDS.len()) as u64;
+        let nr = (REUSE_RANGES.len() * REUSE_RANGES.len()) as u64;
+        if i < nc {
+            ("Coordinate", REUSE_COORDS[(i / REUSE_COORDS.len() as u64) as usize], REUSE_COORDS[(i % REUSE_COORDS.len() as u64) as usize])
+        } else if i < nc + nr {
+            let j = i - nc;
+            ("Range", REUSE_RANGES[(j / REUSE_RANGES.len() as u64) as usize], REUSE_RANGES[(j % REUSE_RANGES.len() as u64) as usize])
+        } else {
+            let j = i - nc - nr;
+            ("Address", REUSE_ADDRESSES[(j / REUSE_ADDRESSES.len() as u64) as usize], REUSE_ADDRESSES[(j % REUSE_ADDRESSES.len() as u64) as usize])
+        }
+    }
+}
+
+// ---------------------------------------------------------------------------------------------
 pub fn space(tier: Tier, id: &str) -> Option<Box<dyn Space>> {
     if let Some(r) = reversed_of(id, |base| space(tier, base)) {
         return r;
@@ -609,6 +704,7 @@ pub fn space(tier: Tier, id: &str) -> Option<Box<dyn Space>> {
         "grid" => Some(Box::new(Grid { thorough: tier == Tier::Thorough })),
         "ranges" => Some(Box::new(Ranges { cases: range_cases() })),
         "addresses" => Some(Box::new(Addresses { names: sheet_names() })),
+        "reuse" => Some(Box::new(Reuse)),
         _ => None,
     }
 }
@@ -618,7 +714,7 @@ fn replay(tier: Tier, case: &Value) -> Vec<Violation> {
 }
 
 fn run(ctx: &Ctx) -> i32 {
-    let ids = ["columns", "grid", "ranges", "addresses", "columns~rev", "grid~rev", "ranges~rev", "addresses~rev"];
+    let ids = ["columns", "grid", "ranges", "addresses", "reuse", "columns~rev", "grid~rev", "ranges~rev", "addresses~rev"];
     let spaces = ids.iter().map(|id| (*id, space(ctx.tier, id).unwrap())).collect();
     let thorough = ctx.tier == Tier::Thorough;
     run_e1(
@@ -627,7 +723,7 @@ fn run(ctx: &Ctx) -> i32 {
             spaces,
             cfg: PoolCfg { chunk: 4, case_timeout: std::time::Duration::from_secs(60), ..Default::default() },
             level: "exploration",
-            rule: "complete enumeration of the finite codec domains: all 16384 column indices and all 18278 one-to-three-letter names (upper and lower case) against an independent bijective base-26 numeral; every row 1..1048576 crossed with columns and $-lock patterns (see bounds); every range shape over corner set {1,2,26,27,16384}x{1,2,1048576} with all lock patterns; every legal sheet name of <=3 atoms (+ boundary names) x 4 range parts through helper::address, Address and DefinedName. distinct_nontrivial = number of distinct printed strings (columns, names, ranges, joined addresses; for the grid only the unlocked column-A coordinate of each row is hashed)".into(),
+            rule: "complete enumeration of the finite codec domains: all 16384 column indices and all 18278 one-to-three-letter names (upper and lower case) against an independent bijective base-26 numeral; every row 1..1048576 crossed with columns and $-lock patterns (see bounds); every range shape over corner set {1,2,26,27,16384}x{1,2,1048576} with all lock patterns; every legal sheet name of <=3 atoms (+ boundary names) x 4 range parts through helper::address, Address and DefinedName; (reuse) every ordered pair of 12 coordinate / 12 range / 8 address texts parsed into the SAME Coordinate / Range / Address object, compared with the second text parsed into a fresh object. distinct_nontrivial = number of distinct printed strings (columns, names, ranges, joined addresses; for the grid only the unlocked column-A coordinate of each row is hashed)".into(),
             alphabets: json!({"columns": MAXC, "names": 18278*2, "rows": MAXR, "grid_columns": COLSET, "lock_patterns": 4, "range_cases": range_cases().len(), "sheet_name_atoms": ATOMS, "sheet_names": sheet_names().len(), "range_parts": RANGE_PARTS}),
             bounds: json!({"grid": if thorough {"all rows x 7 boundary columns x 4 lock patterns"} else {"all rows x 4 (column,lock) combinations; full 7x4 product at boundary rows"}, "sheet_name_atoms_max": 3}),
             exhaustive: true,
